@@ -66,6 +66,22 @@ pub fn gen_c01_space(r: &mut Rng, frames: i32) -> Scn {
         s.nodes.push(c);
     }
     s.start = if r.chance(0.8) { Start::Own } else { Start::AllRunning };
+    // (derived from the scenario seed, so that no extra draw shifts the rest of the generation)
+    // a quarter of the sessions run at 30 or 120 fps: every timer of the protocol is then in a different ratio to the tick
+    s.fps = match (s.seed >> 11) % 8 {
+        0 => 30,
+        1 => 120,
+        _ => 60,
+    };
+    // a sixth of the sessions are driven through the wait helpers, which in rollback mode must behave exactly like
+    // advance_frame
+    if (s.seed >> 17) % 6 == 0 {
+        let w = 1 + ((s.seed >> 20) & 1) as u8;
+        for c in s.nodes.iter_mut() {
+            c.wait = w;
+            c.wait_ms = 5;
+        }
+    }
     s
 }
 
